@@ -86,6 +86,52 @@ Proof.
   exact (H5 j Hj1 Hj2).
 Qed.
 
+(* the unrepaired code (every variant, in fact) outside the class Known_P15: no step is touch-only, or no step
+   has a really changed dependency and no command writes dependencies *)
+Theorem unrelated_not_executed_outside_P15 v cfg recs world i c order :
+  Known_P15 cfg recs world = false -> unrelated_not_executed_at v cfg recs world i c order.
+Proof. intros Hk H1 H2 H3 H4. exact (unrelated_outside_P15_lemma v cfg recs world i c H1 H2 H3 H4 Hk order). Qed.
+
+(* ---- 7. after a fully successful run, a second run on the same world -----------------------------------------
+   [effects_downstream]: commands write only dependencies of steps that depend on their step;
+   [edits_visible]: a record whose superficial fingerprint equals the world's (or a command's output) has the same
+   thorough fingerprint.  First: the records left by a run in which every step ended done agree with the world
+   the run left (thorough fingerprints), for every dependency of every step not marked never. *)
+Theorem successful_run_settles v cfg recs world i c d order :
+  effects_downstream cfg -> edits_visible cfg recs world ->
+  nth_error cfg i = Some c -> In d (s_deps c) -> rc_never (rcond c) = false ->
+  let o := run v cfg recs world order in
+  forallb is_done (o_states o) = true -> tho_same (o_records o) (o_world o) d = true.
+Proof.
+  intros He Hv Hc Hd Hn.
+  exact (successful_run_settles_lemma v cfg recs world i c d Hc Hd Hn
+           (fun k ck Hck X => He i c k ck d Hc Hck Hd X) (fun w Ho => Hv i c d w Hc Hd Ho) order).
+Qed.
+
+(* core: the second run executes a step only if it is always / without dependencies, or a step it depends on was
+   executed in that run (so, by descent along the edges: only what is downstream of an always / no-dependency step) *)
+Theorem rerun_on_unchanged_world v cfg recs world order1 order2 :
+  effects_downstream cfg -> edits_visible cfg recs world ->
+  let o1 := run v cfg recs world order1 in
+  forallb is_done (o_states o1) = true ->
+  v_own_only v = true \/ Known_P15 cfg (o_records o1) (o_world o1) = false ->
+  let o2 := run v cfg (o_records o1) (o_world o1) order2 in
+  forall i c, nth_error cfg i = Some c -> In i (o_exec o2) ->
+              rc_always (rcond c) = true \/ exists j, In j (s_edges c) /\ In j (o_exec o2).
+Proof. exact (rerun_lemma v cfg recs world order1 order2). Qed.
+
+(* the first sentence of the property, literally, outside the class of pipelines in which a by-dependencies step
+   depends on a step that can run at all *)
+Theorem rerun_only_forced v cfg recs world order1 order2 :
+  effects_downstream cfg -> edits_visible cfg recs world ->
+  let o1 := run v cfg recs world order1 in
+  forallb is_done (o_states o1) = true ->
+  v_own_only v = true \/ Known_P15 cfg (o_records o1) (o_world o1) = false ->
+  Known_downstream_edge cfg = false ->
+  let o2 := run v cfg (o_records o1) (o_world o1) order2 in
+  forall i c, nth_error cfg i = Some c -> In i (o_exec o2) -> rc_always (rcond c) = true.
+Proof. exact (rerun_only_forced_lemma v cfg recs world order1 order2). Qed.
+
 (* ---- the statements are pinned -------------------------------------------------------------------------- *)
 Check never_is_never : forall v cfg recs world order i c,
   nth_error cfg i = Some c -> s_when c = WNever -> ~ In i (o_exec (run v cfg recs world order)).
@@ -185,6 +231,23 @@ Qed.
 Example rerun_class : Known_downstream_of_forced cfgAlw = true.
 Proof. vm_compute. reflexivity. Qed.
 
+(* non-vacuity of 7: first run of the P15 pipeline from empty records (both steps run, everything is recorded),
+   second run on the world it left: nothing is executed, in every schedule, by both variants *)
+Example rerun_example :
+  let o1 := run v_unfixed cfgP15 [] worldP15 [0; 1; 0; 1] in
+  o_exec o1 = [0; 1] /\ forallb is_done (o_states o1) = true /\ o_records o1 = worldP15 /\
+  Known_P15 cfgP15 (o_records o1) (o_world o1) = false /\ Known_downstream_edge cfgP15 = false /\
+  map (fun o => o_exec o) (all_outcomes v_unfixed cfgP15 (o_records o1) (o_world o1)) = [[]; []] /\
+  map (fun o => o_exec o) (all_outcomes v_fixed cfgP15 (o_records o1) (o_world o1)) = [[]; []].
+Proof. vm_compute. repeat split; reflexivity. Qed.
+Example rerun_hypotheses : effects_downstream cfgP15 /\ edits_visible cfgP15 [] worldP15.
+Proof.
+  split.
+  - intros i c k ck d _ Hk _ Hd. destruct k as [|[|k]]; cbn in Hk;
+      [injection Hk as <-; cbn in Hd; destruct Hd | injection Hk as <-; cbn in Hd; destruct Hd | destruct k; discriminate Hk].
+  - intros i c d w _ _ _. exact I.
+Qed.
+
 Print Assumptions never_is_never.
 Print Assumptions failed_run_records_nothing.
 Print Assumptions change_is_acted_on.
@@ -192,6 +255,10 @@ Print Assumptions propagates_downstream.
 Print Assumptions forced_steps_run.
 Print Assumptions unrelated_not_executed.
 Print Assumptions touch_is_not_change.
+Print Assumptions unrelated_not_executed_outside_P15.
+Print Assumptions successful_run_settles.
+Print Assumptions rerun_on_unchanged_world.
+Print Assumptions rerun_only_forced.
 Print Assumptions spurious_rerun_refuted.
 Print Assumptions propagates_downstream_refuted_unfixed.
 Print Assumptions propagates_downstream_refuted_half_fix.
